@@ -83,7 +83,7 @@ def lerrName : LErr → String
   | .internal => "internal" | .proposerMismatch => "proposerMismatch" | .nonSequencer => "nonSequencer" | .foreignSequencer => "foreignSequencer" | .validatorSet => "validatorSet" | .unbonded => "unbonded"
   | .revision => "revision" | .misbehaviourDisabled => "misbehaviourDisabled" | .nestedDisabled => "nestedDisabled"
   | .chanExists => "chanExists" | .chanUnknown => "chanUnknown" | .ibc => "ibc" | .noSigner => "noSigner" | .unbondBlocked => "unbondBlocked"
-  | .forkNoClient => "forkNoClient" | .forkNoCons => "forkNoCons" | .resolveHeight => "resolveHeight" | .staleDesc => "staleDesc"
+  | .mixedTx => "mixedTx" | .forkNoClient => "forkNoClient" | .forkNoCons => "forkNoCons" | .resolveHeight => "resolveHeight" | .staleDesc => "staleDesc"
   | .core _ => "core"
 
 def resName (isUpd : Bool) : Res → String
